@@ -56,6 +56,9 @@ Spell(lname, style) ==
                    [] lname = "transfer-encodings" -> [canon |-> "Transfer-Encodings", lower |-> "transfer-encodings", upper |-> "TRANSFER-ENCODINGS", mixed |-> "Transfer-encodings"]
                    [] lname = "x-transfer-encoding" -> [canon |-> "X-Transfer-Encoding", lower |-> "x-transfer-encoding", upper |-> "X-TRANSFER-ENCODING", mixed |-> "X-transfer-Encoding"]
                    [] lname = "x-t" -> [canon |-> "X-T", lower |-> "x-t", upper |-> "X-T", mixed |-> "x-T"]
+                   \* names the header parser stores specially
+                   [] lname = "cookie" -> [canon |-> "Cookie", lower |-> "cookie", upper |-> "COOKIE", mixed |-> "cOOkie"]
+                   [] lname = "user-agent" -> [canon |-> "User-Agent", lower |-> "user-agent", upper |-> "USER-AGENT", mixed |-> "user-Agent"]
     IN CASE style \in {"canon", "nospace", "fold", "foldtab", "padded"} -> forms.canon
          [] style = "lower" -> forms.lower
          [] style = "upper" -> forms.upper
